@@ -655,7 +655,14 @@ fn run_singles<W: World>(spec: &ShardSpec, cur: Option<&str>, fam_alpha: &str, v
     let mut out = Outcome::default();
     let cfg = spec.cfg();
     let cap: usize = spec.extra.get("fam").and_then(|s| s.parse().ok()).unwrap_or(2000);
-    let fam = build_family::<W>(&cfg, fam_alpha, spec.n, cap, &mut out, cur);
+    let mut fam = build_family::<W>(&cfg, fam_alpha, spec.n, cap, &mut out, cur);
+    // large members (size thresholds in the glue, e.g. the 4096-element cap on pre-allocation hints)
+    if let Some(big) = spec.extra.get("big") {
+        let ins = if spec.world == "set" { OpK::SInsert } else { OpK::Insert };
+        for nb in big.split(',').filter_map(|x| x.trim().parse::<u32>().ok()) {
+            fam.push((0..nb).map(|k| Op::key(ins, k)).collect());
+        }
+    }
     let mut curf = CurFile::new(cur);
     out.layers.push((fam.len() as u64, 0));
     let mut seen: HashSet<u128> = HashSet::new();
